@@ -35,7 +35,7 @@ func TestC16(t *testing.T) {
 	polyeth.VerifSealBypass = true
 	defer func() { polyeth.VerifSealBypass = false }()
 
-	rounds := r.N(1, 6)
+	rounds := r.N(2, 30)
 	for round := 0; round < rounds; round++ {
 		workloads.Gov(r, r.Rand(fmt.Sprintf("gov/%d", round)), nil)
 		workloads.GovLists(r, r.Rand(fmt.Sprintf("govlists/%d", round)), nil)
